@@ -219,4 +219,163 @@ theorem evalA (f : Nat) :
         have h := EvalA.bind (ihe e s hfr.1) (fun v => EvalA.bind (ihes es s hfr.2) (fun vs => EvalA.pure s (v :: vs)))
         simpa using h
 
+/-! ### analysis on fragment-A expressions -/
+
+theorem splitDots_simple {n : Str} (h : n.contains '.' = false) : splitDots n = [n] := by
+  induction n with
+  | nil => rfl
+  | cons c cs ih =>
+    simp only [List.contains_cons, Bool.or_eq_false_iff, beq_eq_false_iff_ne, ne_eq] at h
+    unfold splitDots
+    have hc : ¬ c = '.' := fun hh => h.1 hh.symm
+    rw [if_neg hc, ih h.2]
+
+theorem simpleName_split {n : Str} (h : simpleName n = true) : splitDots n = [n] := by
+  simp only [simpleName, Bool.and_eq_true, Bool.not_eq_true'] at h
+  exact splitDots_simple h.1
+
+def unboundA (st : AState) (n : Str) : Prop := ∀ i ∈ normIds st.stack.ids, (st.heap.get i).get n = none
+
+def noStarA (st : AState) : Prop := hasStar st.heap st.stack.ids = false
+
+theorem sni_simple (reg : Registry) (heap : Heap) (ids : List Nat) {n : Str} (h : simpleName n = true) :
+    (symbolNeedsImport reg heap ids n).1 = true ↔ ∀ i ∈ normIds ids, (heap.get i).get n = none := by
+  rw [symbolNeedsImport_spec, simpleName_split h]
+  simp only [prefixes, List.map_nil, List.mem_singleton, forall_eq, joinDots, List.length_singleton,
+    List.drop_one, List.tail_cons]
+  constructor
+  · intro hh i hi
+    cases hg : (heap.get i).get n with
+    | none => rfl
+    | some var =>
+      obtain ⟨pre, part, post, _, _, hnil, _⟩ := hh i hi var hg
+      simp at hnil
+  · intro hh i hi var hg
+    rw [hh i hi] at hg; cases hg
+
+/-- what the analysis of (part of) a fragment-A expression does at module level -/
+structure AnaA (st st' : AState) (names : List Str) : Prop where
+  heap : st'.heap = st.heap
+  stack : st'.stack = st.stack
+  inFunc : st'.inFunc = st.inFunc
+  deferred : st'.deferred = st.deferred
+  mono : ∀ m ∈ st.missing, m ∈ st'.missing
+  found : ∀ n ∈ names, simpleName n = true → unboundA st n → noStarA st → ∃ m ∈ st'.missing, m.name = n
+  same : (∀ n ∈ names, ¬ unboundA st n) → st'.missing = st.missing
+
+theorem AnaA.refl (st : AState) : AnaA st st [] :=
+  ⟨rfl, rfl, rfl, rfl, fun _ h => h, fun _ h => by simp at h, fun _ => rfl⟩
+
+theorem AnaA.trans {a b c : AState} {N1 N2 : List Str} (h1 : AnaA a b N1) (h2 : AnaA b c N2) : AnaA a c (N1 ++ N2) := by
+  have hu : ∀ n, unboundA b n ↔ unboundA a n := by
+    intro n; unfold unboundA; rw [h1.heap, h1.stack]
+  have hs : noStarA b ↔ noStarA a := by unfold noStarA; rw [h1.heap, h1.stack]
+  constructor
+  · rw [h2.heap, h1.heap]
+  · rw [h2.stack, h1.stack]
+  · rw [h2.inFunc, h1.inFunc]
+  · rw [h2.deferred, h1.deferred]
+  · intro m hm; exact h2.mono m (h1.mono m hm)
+  · intro n hn hsn hun hns
+    rcases List.mem_append.mp hn with hn | hn
+    · obtain ⟨m, hm, hmn⟩ := h1.found n hn hsn hun hns
+      exact ⟨m, h2.mono m hm, hmn⟩
+    · exact h2.found n hn hsn ((hu n).mpr hun) (hs.mpr hns)
+  · intro hall
+    rw [h2.same (fun n hn => fun hc => hall n (List.mem_append_right _ hn) ((hu n).mp hc)),
+        h1.same (fun n hn => hall n (List.mem_append_left _ hn))]
+
+theorem anaA_load (reg : Registry) (st : AState) (n : Str) (hf : st.inFunc = false) :
+    AnaA st (runOps reg st [.load n]) [n] := by
+  have hrun : runOps reg st [.load n] = checkLoad reg st n st.stack.ids st.line := by
+    simp [runOps, step, hf]
+  rw [hrun]
+  unfold checkLoad
+  dsimp only
+  by_cases hneed : ((symbolNeedsImport reg st.heap st.stack.ids n).1 && !hasStar (st.emit (symbolNeedsImport reg st.heap st.stack.ids n).2).heap st.stack.ids) = true
+  · rw [if_pos hneed]
+    split
+    · rename_i hany
+      refine ⟨rfl, rfl, rfl, rfl, fun _ h => h, ?_, fun _ => rfl⟩
+      intro m hm _ _ _
+      simp only [List.mem_singleton] at hm; subst hm
+      simp only [AState.emit, List.any_eq_true, decide_eq_true_eq] at hany
+      obtain ⟨x, hx, _, hxn⟩ := hany
+      exact ⟨x, hx, hxn⟩
+    · refine ⟨rfl, rfl, rfl, rfl, fun m h => List.mem_append_left _ h, ?_, ?_⟩
+      · intro m hm _ _ _
+        simp only [List.mem_singleton] at hm; subst hm
+        exact ⟨_, List.mem_append_right _ (List.mem_singleton.mpr rfl), rfl⟩
+      · intro hall
+        exfalso
+        -- `n` is bound, so it cannot have needed import
+        have hb := hall n (List.mem_singleton.mpr rfl)
+        simp only [Bool.and_eq_true] at hneed
+        by_cases hsn : simpleName n = true
+        · exact hb ((sni_simple reg st.heap st.stack.ids hsn).mp hneed.1)
+        · -- not a simple name: `unboundA` is still implied by the decision (spec), via the longest prefix only; avoid: use spec
+          apply hb
+          intro i hi
+          have hspec := (symbolNeedsImport_spec reg st.heap st.stack.ids n).mp hneed.1 i hi
+          cases hg : (st.heap.get i).get n with
+          | none => rfl
+          | some var =>
+            exfalso
+            have hmem : splitDots n ∈ prefixes (splitDots n) := by
+              have : ∀ l : List Str, l ≠ [] → l ∈ prefixes l := by
+                intro l
+                induction l with
+                | nil => intro h; exact absurd rfl h
+                | cons a r ihr =>
+                  intro _
+                  cases r with
+                  | nil => simp [prefixes]
+                  | cons b r' =>
+                    have := ihr (by simp)
+                    simp only [prefixes, List.mem_cons, List.mem_map]
+                    exact .inr ⟨_, this, rfl⟩
+              apply this
+              cases n with
+              | nil => simp [splitDots]
+              | cons c cs =>
+                unfold splitDots
+                split
+                · simp
+                · split <;> simp
+            have hj : joinDots (splitDots n) = n := by
+              have : ∀ s : Str, joinDots (splitDots s) = s := by
+                intro s
+                induction s with
+                | nil => rfl
+                | cons c cs ihs =>
+                  unfold splitDots
+                  split
+                  · rename_i hc
+                    cases hsd : splitDots cs with
+                    | nil => simp [hsd, joinDots] at ihs ⊢; rw [← ihs]; simp [hc]
+                    | cons l ls =>
+                      rw [hsd] at ihs
+                      cases ls with
+                      | nil => simp only [joinDots] at ihs ⊢; simp [ihs, hc]
+                      | cons l2 ls2 => simp only [joinDots] at ihs ⊢; simp [ihs, hc]
+                  · cases hsd : splitDots cs with
+                    | nil => simp [hsd, joinDots] at ihs ⊢; exact ihs
+                    | cons l ls =>
+                      rw [hsd] at ihs
+                      simp only
+                      cases ls with
+                      | nil => simp only [joinDots] at ihs ⊢; rw [ihs]
+                      | cons l2 ls2 => simp only [joinDots, List.cons_append] at ihs ⊢; rw [ihs]
+              exact this n
+            obtain ⟨pre, part, post, _, _, hnil, _⟩ := hspec (splitDots n) hmem var (by rw [hj]; exact hg)
+            simp at hnil
+  · rw [if_neg hneed]
+    refine ⟨rfl, rfl, rfl, rfl, fun _ h => h, ?_, fun _ => rfl⟩
+    intro m hm hsn hun hns
+    simp only [List.mem_singleton] at hm; subst hm
+    exfalso
+    apply hneed
+    simp only [Bool.and_eq_true, Bool.not_eq_true']
+    exact ⟨(sni_simple reg st.heap st.stack.ids hsn).mpr hun, hns⟩
+
 end Pfb.C05
